@@ -464,6 +464,24 @@ def boundary_suite(tier, seed, sid0):
     return out, meta
 
 
+def wrap_suite(tier, seed, sid0):
+    """C07 has no bound on chunk sizes: one-shot chunk pulls with sizes near usize::MAX (which advance the ticket
+    dispenser by that much) racing with single pulls on the wrapper of an arbitrary iterator."""
+    rng = random.Random(seed * 389 + 1)
+    out = []
+    reps = 8 if tier == "quick" else 120
+    for kind in TICKET:
+        for big in (1999999999, 1999999998, 1500000000):        # usize::MAX, usize::MAX - 1, 2^63
+            for _ in range(reps):
+                others = [[{"op": rng.choice(["next", "nextid"])}] * rng.choice([1, 2]) for _ in range(rng.choice([2, 3]))]
+                threads = [[{"op": "chunk", "n": big, "take": rng.choice([0, 1, 2])}]] + others
+                rng.shuffle(threads)
+                out.append({"id": sid0 + len(out), "kind": kind, "len": rng.randrange(1, 6), "hint": rng.choice(["exact", "inexact", "unbounded"]),
+                            "threads": threads, "policy": "rand", "seed": rng.randrange(1 << 30),
+                            "post": [{"op": "hasmore"}, {"op": "next"}, {"op": "drop"}], "tag": {"suite": "ticket_wrap"}})
+    return out, {"replayed": len(out)}
+
+
 def lowlevel_suite(tier, seed, sid0):
     """C14, dynamic clause: sequences of SAFE public calls including the low-level ones of the public trait
     `AtomicIter` (get, fetch_n, progress_and_get_begin_idx, counter().store) on the consuming kinds."""
